@@ -676,6 +676,34 @@ func TestSort(t *testing.T) {
 	}
 	r.Exhaustive(fmt.Sprintf("every slice of length 0..%d over a 12-address pool (IPv4, IPv6, zoned, IPv4-mapped, the invalid Addr; repetitions allowed), sorted with both comparators by SortFunc and SortStableFunc", maxL))
 	r.Sample(map[string]any{"in": fmt.Sprint([]netip.Addr{pool[6], pool[0], pool[11], pool[7], pool[9]}), "PreferIPv4_expected": fmt.Sprint(expectedOrder([]netip.Addr{pool[6], pool[0], pool[11], pool[7], pool[9]}, true))})
+	// zones are compared as netip compares them - byte-wise, so letter case, digits and length all matter
+	zones := []string{"", "a", "b", "A", "B", "eth0", "Eth1", "ETH0", "eth10", "eth2", "\u00e9", "\u00c9", "1", "01", "ab", "aB", "\u212a", "k"}
+	{
+		var zp []netip.Addr
+		for _, z := range zones {
+			zp = append(zp, mp("fe80::1").WithZone(z))
+		}
+		zp = append(zp, mp("fe80::2%A"), mp("fe80::"), mp("1.2.3.4"), netip.Addr{})
+		for l := 2; l <= 3; l++ {
+			total := gen.PowInt(len(zp), l)
+			mon.Parallel(total, func(w, lo, hi int) {
+				var e, n int64
+				ix := make([]int, l)
+				in := make([]netip.Addr, l)
+				for i := lo; i < hi; i++ {
+					gen.SeqAt(len(zp), i, ix)
+					for k, j := range ix {
+						in[k] = zp[j]
+					}
+					sortCase(r, in, &e, &n)
+				}
+				r.Eval(e)
+				r.NontrivialN(n)
+				r.Count("sorted_zone_slices", int64(hi-lo))
+			})
+		}
+		r.Exhaustive(fmt.Sprintf("every slice of length 2..3 over fe80::1 with %d zones (letter case, digits, prefixes of one another, non-ASCII) plus four other addresses", len(zones)))
+	}
 	nr := r.Pick(40_000, 30_000_000)
 	mon.Parallel(nr, func(w, lo, hi int) {
 		var e, n int64
@@ -704,7 +732,11 @@ func TestSort(t *testing.T) {
 				default:
 					var b [16]byte
 					b[0], b[15] = byte(rng.IntN(3)), byte(rng.IntN(4))
-					in[k] = netip.AddrFrom16(b).WithZone([]string{"", "", "a", "b"}[rng.IntN(4)])
+					if rng.IntN(2) == 0 {
+						in[k] = netip.AddrFrom16(b).WithZone([]string{"", "", "a", "b"}[rng.IntN(4)])
+					} else {
+						in[k] = netip.AddrFrom16(b).WithZone(zones[rng.IntN(len(zones))])
+					}
 				}
 			}
 			sortCase(r, in, &e, &n)
